@@ -153,6 +153,11 @@ func (h *Hub) connectFoundService(remoteService *api.ServiceDetails, host, port,
 		return nil
 	}
 
+	// no new connections after the hub was shut down
+	if h.checkHasShutdown() {
+		return nil
+	}
+
 	logging.Log().Debugf("initiating connection to %s at %s:%s%s", remoteService.SKI(), host, port, path)
 
 	dialer := &websocket.Dialer{
@@ -305,6 +310,11 @@ func (h *Hub) coordinateConnectionInitations(ski string, entry *api.MdnsEntry) {
 // when initating a pairing process
 func (h *Hub) prepareConnectionInitation(ski string, counter int, entry *api.MdnsEntry) {
 	h.setConnectionAttemptRunning(ski, false)
+
+	// a delayed attempt may fire after the hub was shut down
+	if h.checkHasShutdown() {
+		return
+	}
 
 	// check if the current counter is still the same, otherwise this counter is irrelevant
 	currentCounter, exists := h.getCurrentConnectionAttemptCounter(ski)
